@@ -76,7 +76,7 @@ func c17(r *core.Run) {
 	for _, kind := range []string{"Set", "Delete"} {
 		for _, fn := range funcs {
 			for _, e := range p.Effects(fn) {
-				if !e.Direct && effHas(e, kind, stFiles) != effHas(e, kind, stFilesO) {
+				if (!e.Direct || !isAccessorFn(p, fn)) && effHas(e, kind, stFiles) != effHas(e, kind, stFilesO) {
 					singleSite[kind][fn] = true
 				}
 			}
@@ -88,7 +88,7 @@ func c17(r *core.Run) {
 			var onlyA, onlyB, candA, candB []*core.Effect
 			for _, e := range effs {
 				a, b := effHas(e, kind, stFiles), effHas(e, kind, stFilesO)
-				if e.Direct {
+				if e.Direct && isAccessorFn(p, fn) {
 					continue // the index-level helper itself; its callers are judged
 				}
 				if a && !b {
@@ -132,6 +132,11 @@ func c17(r *core.Run) {
 			mustPerform := func(call ssa.CallInstruction, name string) bool {
 				if cal, _ := directOpCallee(p, call, kind, name); cal != nil {
 					return true
+				}
+				for _, o := range p.StoreOps(fn) {
+					if o.Instr == call && o.Kind == kind && o.Module+"/"+o.Prefix == name {
+						return true // the store operation itself
+					}
 				}
 				cs := p.Callees(call)
 				if len(cs) != 1 {
@@ -318,7 +323,8 @@ func c17(r *core.Run) {
 					if ct, at := containsKeyTerm(p, caller, call, ap); ct != "" || at != "" {
 						r.Check(ct == at && ct != "", "C17/R3", core.FnName(caller)+":contains-key=appended-key", p.InstrPos(call), "membership test and append use the same key term", "the prover list is tested for one key ("+ct+") but another ("+at+") is appended: the same prover can be listed twice under two spellings")
 					}
-					bad := core.PathExists(caller, p.PassEdges(caller, anyOf(g, p.FlagImplies(caller, g))), call, nil)
+					lifted := p.LiftGuard(func(*ssa.Function) core.GuardMatch { return g }, 2)(caller)
+					bad := core.PathExists(caller, p.PassEdges(caller, anyOf(g, p.FlagImplies(caller, anyOf(g, lifted)), lifted)), call, nil)
 					r.Check(!bad, "C17/R3", core.FnName(caller)+":append-only-if-absent", p.InstrPos(call), "appender call behind containsProver(...)=false", "a prover can be appended to a file that already lists it (duplicate entry)")
 				}
 			}
@@ -374,28 +380,17 @@ func c17(r *core.Run) {
 	for _, fn := range funcs {
 		var delFile *core.Effect
 		for _, e := range p.Effects(fn) {
-			if effHas(e, "Delete", stFiles) && !e.Direct {
+			if performsDirectly(p, fn, e, "Delete", stFiles) {
 				delFile = e
 			}
 		}
-		if delFile == nil || !effHas(delFile, "Delete", stFilesO) && false {
+		if delFile == nil {
 			continue
 		}
 		if !reach[fn] {
 			continue
 		}
-		// only the function that deletes the file record directly via the index helpers
-		direct := false
-		for _, c := range delFile.Callees {
-			for _, o := range p.StoreOps(c) {
-				if o.Kind == "Delete" && o.Module+"/"+o.Prefix == stFiles {
-					direct = true
-				}
-			}
-		}
-		if !direct {
-			continue
-		}
+		// (delFile is the delete of the file record itself: performed here, or through a thin index accessor)
 		okDel := false
 		for _, e := range p.Effects(fn) {
 			if !effHas(e, "Delete", stProof) {
@@ -431,6 +426,9 @@ func containsPredicate(p *core.Program, fn *ssa.Function) bool {
 	}
 	removed := p.PassEdges(fn, g)
 	nTrue := 0
+	if c, _ := containsViaLibrary(p, fn); c != nil {
+		return true
+	}
 	for _, b := range fn.Blocks {
 		ret, ok := b.Instrs[len(b.Instrs)-1].(*ssa.Return)
 		if !ok {
@@ -454,8 +452,9 @@ func containsPredicate(p *core.Program, fn *ssa.Function) bool {
 // appender appends, both expressed over the caller's values (callee parameters named by the call arguments).
 func containsKeyTerm(p *core.Program, caller *ssa.Function, appendCall ssa.CallInstruction, appender *ssa.Function) (string, string) {
 	tb := core.NewTermBuilder(p)
-	bind := func(cal *ssa.Function, call ssa.CallInstruction) *core.TermBuilder {
+	bindTo := func(cal *ssa.Function, call ssa.CallInstruction, outer *core.TermBuilder) *core.TermBuilder {
 		sub := core.NewTermBuilder(p)
+		sub.Bind = map[*ssa.Parameter]core.BoundVal{}
 		c := call.Common()
 		var actuals []ssa.Value
 		if c.IsInvoke() {
@@ -464,40 +463,53 @@ func containsKeyTerm(p *core.Program, caller *ssa.Function, appendCall ssa.CallI
 		actuals = append(actuals, c.Args...)
 		for i, prm := range cal.Params {
 			if i < len(actuals) {
-				sub.Names[prm] = tb.Term(actuals[i])
+				sub.Bind[prm] = core.BoundVal{Val: actuals[i], TB: outer}
 			}
 		}
 		return sub
 	}
+	bind := func(cal *ssa.Function, call ssa.CallInstruction) *core.TermBuilder { return bindTo(cal, call, tb) }
 	containsTerm := ""
-	allInstrs(caller, func(in ssa.Instruction) {
-		c, ok := in.(*ssa.Call)
-		if !ok {
-			return
-		}
-		for _, cal := range p.Callees(c) {
-			if !containsPredicate(p, cal) {
-				continue
+	// the membership test: in the caller itself or in a helper it calls (one level)
+	var scan func(fn *ssa.Function, ftb *core.TermBuilder, depth int)
+	scan = func(fn *ssa.Function, ftb *core.TermBuilder, depth int) {
+		allInstrs(fn, func(in ssa.Instruction) {
+			c, ok := in.(*ssa.Call)
+			if !ok {
+				return
 			}
-			sub := bind(cal, c)
-			// the value compared with the list elements
-			for _, b := range cal.Blocks {
-				ifi, ok := b.Instrs[len(b.Instrs)-1].(*ssa.If)
-				if !ok {
+			for _, cal := range p.Callees(c) {
+				if !containsPredicate(p, cal) {
+					if depth == 0 && cal != appender && cal.Blocks != nil && core.ModuleOf(cal) == core.ModuleOf(caller) {
+						scan(cal, bindTo(cal, c, ftb), 1)
+					}
 					continue
 				}
-				ca := p.NormCond(ifi)
-				if ca.Kind != "eq" {
+				sub := bindTo(cal, c, ftb)
+				if lc, key := containsViaLibrary(p, cal); lc != nil {
+					containsTerm = sub.Term(key)
 					continue
 				}
-				for _, side := range []ssa.Value{ca.X, ca.Y} {
-					if !p.ProvAt(side, "", ifi).HasParam(cal, 0, ".Proofs") {
-						containsTerm = sub.Term(side)
+				// the value compared with the list elements
+				for _, b := range cal.Blocks {
+					ifi, ok := b.Instrs[len(b.Instrs)-1].(*ssa.If)
+					if !ok {
+						continue
+					}
+					ca := p.NormCond(ifi)
+					if ca.Kind != "eq" {
+						continue
+					}
+					for _, side := range []ssa.Value{ca.X, ca.Y} {
+						if !p.ProvAt(side, "", ifi).HasParam(cal, 0, ".Proofs") {
+							containsTerm = sub.Term(side)
+						}
 					}
 				}
 			}
-		}
-	})
+		})
+	}
+	scan(caller, tb, 0)
 	appendTerm := ""
 	sub := bind(appender, appendCall)
 	allInstrs(appender, func(in ssa.Instruction) {
@@ -528,7 +540,20 @@ func indexKeyTerms(p *core.Program, call ssa.CallInstruction, kind, name string)
 	outer := core.NewTermBuilder(p)
 	outer.Loaded = true
 	var out []string
-	if cal, op := directOpCallee(p, call, kind, name); cal != nil {
+	var own *core.StoreOp
+	if pf := call.Parent(); pf != nil {
+		for _, o := range p.StoreOps(pf) {
+			if o.Instr == call && o.Kind == kind && o.Module+"/"+o.Prefix == name {
+				own = o
+			}
+		}
+	}
+	if own != nil {
+		// the store operation itself: its key components are already values of this function
+		for _, comp := range p.KeyComponents(own.Key, own.Instr) {
+			out = append(out, outer.Term(comp.Val))
+		}
+	} else if cal, op := directOpCallee(p, call, kind, name); cal != nil {
 		out = keyTermsAtCallTB(p, outer, call, cal, op)
 	} else if cs := p.Callees(call); len(cs) == 1 {
 		c := call.Common()
@@ -558,4 +583,24 @@ func indexKeyTerms(p *core.Program, call ssa.CallInstruction, kind, name string)
 	out = append([]string{}, out...)
 	sort.Strings(out)
 	return out
+}
+
+// containsViaLibrary: fn(list-holder, key) returns slices.Contains(holder.Proofs, f(key)); yields the call and the
+// value searched for.
+func containsViaLibrary(p *core.Program, fn *ssa.Function) (*ssa.Call, ssa.Value) {
+	if fn == nil || len(fn.Blocks) != 1 || len(fn.Params) != 2 {
+		return nil, nil
+	}
+	ret, ok := fn.Blocks[0].Instrs[len(fn.Blocks[0].Instrs)-1].(*ssa.Return)
+	if !ok || len(ret.Results) != 1 {
+		return nil, nil
+	}
+	c, ok := ret.Results[0].(*ssa.Call)
+	if !ok || !strings.HasPrefix(core.CalleeFullName(c), "slices.Contains") || len(c.Call.Args) != 2 {
+		return nil, nil
+	}
+	if !p.ProvAt(c.Call.Args[0], "", c).HasParam(fn, 0, ".Proofs") || !p.ProvAt(c.Call.Args[1], "", c).HasParam(fn, 1, "") {
+		return nil, nil
+	}
+	return c, c.Call.Args[1]
 }
